@@ -452,3 +452,32 @@ def oracle_tokenless_role(tr):
                     "what": f"repay by account {a} (risk admin is {ra}) cleared {repaid_tokens} tokens of debt in bank {k} "
                             f"without any token reaching the vault (account flags {a0[a]['flags']}, bank flags {b0[k]['flags']})"}
     return None
+
+
+# ------------------------------------------------------------------------------------------------
+# C03 at instruction level: no deposit / withdraw / borrow / repay (incl. the *_all forms) lets the acting user end up with
+# more tokens + position value in that bank than before, valued at the post-accrual share values (interest accrued by the
+# instruction itself is the bank's doing, not the operation's)
+def oracle_c03_instruction(tr):
+    if not tr.ok:
+        return None
+    ra = -1
+    for op, res, b0, a0, b1, a1, now, prices in walk(tr):
+        if op[0] == 30:
+            ra = op[1]
+        if res != "OK" or op[0] not in (1, 2, 3, 4, 34, 35):
+            continue
+        a, k = op[1], op[2]
+        if op[0] == 4 and op[4] == 1 and ra == a and b0[k]["flags"] & 32:
+            continue            # the risk admin's sanctioned token-less write-off on a sunset bank (C01 / C08 own it)
+        asv, lsv = b1[k]["asv"], b1[k]["lsv"]
+
+        def val(acc):
+            return sum(s["a"] * asv - s["l"] * lsv for s in acc["slots"] if s["bank"] == k + 1)
+        dtok = a1[a]["tok"][k] - a0[a]["tok"][k]
+        gain = dtok * ONE * ONE + val(a1[a]) - val(a0[a])
+        if gain > asv + lsv + ONE:
+            return {"key": "operation-creates-value",
+                    "what": f"{H.OPN[op[0]]} {op[1:]}: the user's tokens changed by {dtok} and the position value by "
+                            f"{(val(a1[a]) - val(a0[a])) / (ONE * ONE):.6f} tokens: net gain {gain / (ONE * ONE):.6f} tokens"}
+    return None
